@@ -40,6 +40,8 @@ MC = {
 
 # which properties claim which kinds of rejected trace lines
 def claims(pid, op, kind, wf):
+    if op == "hang":
+        return True          # a DOM call that did not return within 20 s, whichever property is being checked
     if pid == "C09":
         return wf == "illformed" or op in ("walk", "transfer_within_bad") or \
             (kind == "struct" and op in ("destroy", "transfer"))
